@@ -263,7 +263,8 @@ void ezc3d::ParametersNS::Parameters::write(std::fstream &f) const
     nBlocksToNext = int(actualPos)/512;
     if (int(actualPos) % 512 > 0)
         ++nBlocksToNext;
-    f.write(reinterpret_cast<const char*>(&nBlocksToNext), ezc3d::BYTE);
+    ++nBlocksToNext; // Blocks are numbered from 1 (the header is block 1)
+    f.write(reinterpret_cast<const char*>(&nBlocksToNext), 2*ezc3d::BYTE);
     f.seekg(actualPos);
 }
 
